@@ -14,23 +14,57 @@ import (
 
 var zzArithOps = []string{"+", "-", "*", "/", "%", "&", "|", "<<", ">>", "==", "!=", "<", "<=", ">", ">="}
 
-// zzNumOperand returns a symbolic number of class c (0 int64, 1 float64) and
-// its float64 / int64 views.
+// zzArithClasses: 0 int64, 1 float64 (what script literals produce); 2.. the
+// signed integer and float kinds a host program can hand in, which enter the
+// tower by Go's conversion to int64 / float64.
+var zzArithClasses = []string{"int", "float", "goint", "int32", "int16", "int8", "float32"}
+
+// zzNumOperand returns a symbolic number of class c and its float64 / int64
+// views.
 func zzNumOperand(c int) (v interface{}, isInt bool, i int64, f float64) {
-	if c == 0 {
+	switch c {
+	case 0:
 		i = zz.Int64()
 		return i, true, i, float64(i)
+	case 2:
+		n := zz.Int()
+		return n, true, int64(n), float64(int64(n))
+	case 3:
+		n := zz.Int32()
+		return n, true, int64(n), float64(int64(n))
+	case 4:
+		n := zz.Int16()
+		return n, true, int64(n), float64(int64(n))
+	case 5:
+		n := zz.Int8()
+		return n, true, int64(n), float64(int64(n))
+	case 6:
+		g := zz.Float32()
+		return g, false, 0, float64(g)
 	}
 	f = zz.Float64()
 	return f, false, 0, f
 }
 
 func ZZ_C05_binary_numeric() {
+	zzC05Binary(zz.Choose(2), zz.Choose(2))
+}
+
+// ZZ_C05_binary_host_kinds: the same table with at least one operand of a
+// host-only numeric kind (int, int32, int16, int8, float32).
+func ZZ_C05_binary_host_kinds() {
+	cx, cy := zz.Choose(len(zzArithClasses)), zz.Choose(len(zzArithClasses))
+	if cx < 2 && cy < 2 {
+		return
+	}
+	zzC05Binary(cx, cy)
+}
+
+func zzC05Binary(cx, cy int) {
 	op := zzArithOps[zz.Choose(len(zzArithOps))]
-	cx, cy := zz.Choose(2), zz.Choose(2)
 	x, xInt, xi, xf := zzNumOperand(cx)
 	y, yInt, yi, yf := zzNumOperand(cy)
-	cls := []string{"int", "float"}[cx] + "," + []string{"int", "float"}[cy]
+	cls := zzArithClasses[cx] + "," + zzArithClasses[cy]
 	if (op == "==" || op == "!=") && cx != cy {
 		return // C06 owns mixed equality
 	}
@@ -39,10 +73,6 @@ func ZZ_C05_binary_numeric() {
 	id := "C05." + op + "/" + cls
 	switch op {
 	case "==", "!=":
-		// C06 owns mixed equality; here same-class operands only
-		if cx != cy {
-			return
-		}
 		zz.Assert(err == nil && rv.Kind() == reflect.Bool, id+"/kind")
 		var want bool
 		if bothInt {
@@ -88,6 +118,9 @@ func ZZ_C05_binary_numeric() {
 		zz.Assert(err == nil, id+"/no-error")
 		if bothInt {
 			zz.Assert(rv.Kind() == reflect.Int64, id+"/kind")
+			if rv.Kind() != reflect.Int64 {
+				return
+			}
 			var want int64
 			switch op {
 			case "+":
@@ -100,6 +133,9 @@ func ZZ_C05_binary_numeric() {
 			zz.Assert(rv.Int() == want, id+"/value")
 		} else {
 			zz.Assert(rv.Kind() == reflect.Float64, id+"/kind")
+			if rv.Kind() != reflect.Float64 {
+				return
+			}
 			var want float64
 			switch op {
 			case "+":
@@ -139,12 +175,15 @@ func ZZ_C05_binary_numeric() {
 	}
 }
 
-func ZZ_C05_unary_numeric() {
+func ZZ_C05_unary_numeric() { zzC05Unary(zz.Choose(2)) }
+
+func ZZ_C05_unary_host_kinds() { zzC05Unary(2 + zz.Choose(len(zzArithClasses)-2)) }
+
+func zzC05Unary(c int) {
 	op := []string{"-", "^", "!"}[zz.Choose(3)]
-	c := zz.Choose(2)
 	x, xInt, xi, xf := zzNumOperand(c)
 	rv, err := zzEval(env.NewEnv(), &ast.UnaryExpr{Operator: op, Expr: zzLit(x)})
-	id := "C05.unary" + op + "/" + []string{"int", "float"}[c]
+	id := "C05.unary" + op + "/" + zzArithClasses[c]
 	switch op {
 	case "-":
 		zz.Assert(err == nil, id+"/no-error")
